@@ -79,7 +79,7 @@ def main():
     #    evidence are never touched and other checks can run meanwhile. The confirmation on /repo
     #    itself (git apply, run, git checkout) is done later by tools/seed_confirm.py.
     for c in checks:
-        for tier in ['quick', 'thorough']:
+        for tier in (['quick'] if os.environ.get('SEED_QUICK_ONLY') else ['quick', 'thorough']):
             t = time.time()
             r = sh(f'VERIF_REPO={wt} ./check {c} {tier}', cwd='/verif', timeout=9000)
             keys = sorted(set(l.split('key=')[1].split(' what=')[0] for l in r.stdout.splitlines() if 'key=' in l))
